@@ -6,6 +6,7 @@ mod bits;
 mod cell;
 mod driver;
 mod dump;
+mod eventsmon;
 mod gen;
 mod known;
 mod minimise;
@@ -17,6 +18,8 @@ mod rng;
 mod run;
 mod seqmon;
 mod special;
+mod stickymon;
+mod undomon;
 mod world;
 
 #[global_allocator]
